@@ -15,6 +15,7 @@ pub mod c13;
 pub mod c14;
 pub mod c15;
 pub mod c16;
+pub mod c17;
 pub mod c18;
 
 pub fn run(prop: &str, ctx: &Ctx, r: &mut Report) -> bool {
@@ -35,6 +36,7 @@ pub fn run(prop: &str, ctx: &Ctx, r: &mut Report) -> bool {
 		"C14" => c14::run(ctx, r),
 		"C15" => c15::run(ctx, r),
 		"C16" => c16::run(ctx, r),
+		"C17" => c17::run(ctx, r),
 		"C18" => c18::run(ctx, r),
 		_ => return false,
 	}
